@@ -117,8 +117,9 @@ Definition received (ops : list lop) : list (Z * Z) :=
   flat_map (fun o => match o with Recv s i _ => [(s, i)] | _ => [] end) ops.
 Definition posted (me : Z) (ops : list lop) : list call :=
   flat_map (fun o => match o with LPost t i p => [mkCall me t i p] | _ => [] end) ops.
-Definition default_types (ops : list lop) : bool :=
-  forallb (fun o => match o with Recv _ _ (Some t) => t =? MSG_ALGO | _ => true end) ops.
+(* every received message has the same effective type t (None = MSG_ALGO) *)
+Definition uniform_types (t : Z) (ops : list lop) : bool :=
+  forallb (fun o => match o with Recv _ _ ty => with_type ty =? t | _ => true end) ops.
 Definition posts_elsewhere (me : Z) (ops : list lop) : bool :=
   forallb (fun o => match o with LPost t _ _ => negb (t =? me) | _ => true end) ops.
 
